@@ -60,6 +60,21 @@ KERNELS = [
         "functions": ["utils.partial_match_to_regex_converter:convert_partial_match_to_regex"],
     },
     {
+        # only ONE leading and ONE trailing '*' are wildcards: runs of asterisks
+        "name": "glob_asterisk_runs",
+        "imports": _IMPORTS,
+        "helpers": HELPERS,
+        "sig": "(p: str, s: str) -> bool",
+        "pre": ["1 <= len(p)", "alpha(p, {N}, 'a*')", "alpha(s, {N}, 'a*')"],
+        "post": "_ == glob(p, s)",
+        "body": _BODY,
+        "ladder": [4, 3],
+        "quick_skip_first": True,
+        "timeout": 240,
+        "public": "public",
+        "functions": ["utils.partial_match_to_regex_converter:convert_partial_match_to_regex"],
+    },
+    {
         "name": "glob_metacharacters",
         "imports": _IMPORTS,
         "helpers": HELPERS,
